@@ -32,7 +32,8 @@ n_mut = sum(1 for r in rows if r[1] == "mutant")
 n_own = 0
 for r in rows:
     if r[1] == "mutant" and r[0].startswith("seeded/"):
-        prop = r[0].split("/")[1].replace("r2-", "").replace("r3-", "").split("-")[0]
+        import re as _re
+        prop = _re.search(r"(C\d\d)", r[0]).group(1)
         if prop in r[3].split(","):
             n_own += 1
 n_seed = sum(1 for r in rows if r[0].startswith("seeded/"))
